@@ -2688,7 +2688,7 @@ class AfterAfterBodyPhase(Phase):
         self.tree.insertComment(token, self.tree.document)
 
     def processSpaceCharacters(self, token):
-        return self.parser.phases["inBody"].processSpaceCharacters(token)
+        return self.parser.phases["inBody"].processSpaceCharactersNonPre(token)
 
     def processCharacters(self, token):
         self.parser.parseError("expected-eof-but-got-char")
@@ -2726,7 +2726,7 @@ class AfterAfterFramesetPhase(Phase):
         self.tree.insertComment(token, self.tree.document)
 
     def processSpaceCharacters(self, token):
-        return self.parser.phases["inBody"].processSpaceCharacters(token)
+        return self.parser.phases["inBody"].processSpaceCharactersNonPre(token)
 
     def processCharacters(self, token):
         self.parser.parseError("expected-eof-but-got-char")
